@@ -369,7 +369,7 @@ def matrix_pivot(m, sign=False):
     """
     mp = deepcopy(m)
     n = len(mp)
-    p = matrix_identity(n)  # permutation matrix
+    p = deepcopy(matrix_identity(n))  # permutation matrix (matrix_identity is memoised: never modify its result in place)
     num_rowswap = 0
     for j in range(0, n):
         row = j
